@@ -294,6 +294,11 @@ func importLines(progs []*Outcome) string {
 			fmt.Fprintf(&b, "\t_ %q\n", i[1:])
 			continue
 		}
+		if j := strings.Index(i, " "); j > 0 {
+			// "name path": an import under an explicit name
+			fmt.Fprintf(&b, "\t%s %q\n", i[:j], i[j+1:])
+			continue
+		}
 		fmt.Fprintf(&b, "\t%q\n", i)
 	}
 	return b.String()
